@@ -527,6 +527,20 @@ func mutateOnce(root map[string]any, rng *rand.Rand) {
 	}
 }
 
+// representable reports whether a parsed resource is a fixed point of its FHIR JSON rendering. jsonformat accepts
+// {"_reference": {"id": "pid", "extension": [...]}} in a way that leaves an extension on the `id` String of the primitive:
+// a proto state that FHIR JSON cannot spell (an id is a bare string), so the JSON tree - the property's "every element of a
+// type in the resource's FHIR JSON tree" - does not contain it while a walk of the protos does. Such a document is outside
+// the domain; it was met at seed 2 of the thorough tier (MR4~seed:203072) and reported as found-element-that-is-not-in-the-tree.
+func representable(msg proto.Message) bool {
+	out, err := lib.MarshalResource(msg)
+	if err != nil {
+		return false
+	}
+	again, err := lib.ParseResource(out)
+	return err == nil && proto.Equal(msg, again)
+}
+
 // deriveVariant derives a populated resource from a model resource document by
 // 1..8 random edits (seeded). Every intermediate document must parse with
 // jsonformat; an edit that breaks parsing is undone.
@@ -550,6 +564,9 @@ func deriveVariant(js []byte, seed int64) proto.Message {
 		}
 		if _, err := lib.Annotate(msg); err != nil {
 			continue // the projection cannot describe this document: not a usable input
+		}
+		if !representable(msg) {
+			continue // the parsed protos hold something their own FHIR JSON rendering does not (see representable)
 		}
 		cur = next
 		i++
